@@ -27,6 +27,7 @@ type c05Spec struct {
 	Rot    int    `json:"rot"`  // 0 = no crop, 1..3 rotation variants
 	Text   bool   `json:"text,omitempty"` // numerically unstable N transport: the text-valued status variables get filled
 	Reuse  bool   `json:"reuse,omitempty"` // files on disk (the library's own writer) in a result folder that holds a longer earlier run
+	Lead   int    `json:"lead,omitempty"`  // number of leading columns bound to text variables that stay empty (in all three files)
 }
 
 var c05Starts = []string{"2003-12-30", "2003-12-31", "2004-01-01", "2004-02-27", "2004-02-28", "2004-02-29", "2004-03-01", "2003-02-28", "2003-03-01", "2004-06-15", "2001-09-29"}
@@ -68,6 +69,14 @@ func c05Specs(tier string, seed int) []c05Spec {
 	for style := 0; style < 2; style++ {
 		for _, k := range []int{1, 2} {
 			out = append(out, c05Spec{Start: "2001-04-10", Len: 14, Annual: "end-1", K: k, Style: style, Fmt: "DateDElong", Cols: 1, Text: true})
+		}
+	}
+	// records that begin with empty values: leading columns bound to text variables the run never fills
+	for _, lead := range []int{1, 2} {
+		for style := 0; style < 2; style++ {
+			for _, rot := range []int{0, 2} {
+				out = append(out, c05Spec{Start: "2003-12-31", Len: []int{40, 600}[rot/2], Annual: "0101", K: 1 + 6*(lead-1), Style: style, Fmt: "DateDElong", Cols: lead % 2, Rot: rot, Lead: lead})
+			}
 		}
 	}
 	// the library's own file writer, result folder reused after a longer run of the same plot
@@ -207,6 +216,16 @@ func c05Run(raw json.RawMessage, c *mc.Ctx) {
 		ycols = append(append([]c05Col{}, c05YearCols...), c05Col{"C1NotStableErr", "%s"})
 		ccols = append(append([]c05Col{}, c05CropCols...), c05Col{"NotStableErr", "%s"})
 	}
+	if sp.Lead > 0 {
+		pre := func(cols []c05Col, names ...string) []c05Col {
+			var o []c05Col
+			for _, n := range names[:sp.Lead] {
+				o = append(o, c05Col{n, "%s"})
+			}
+			return append(o, cols...)
+		}
+		dcols, ycols, ccols = pre(dcols, "C1NotStable", "C1NotStableErr"), pre(ycols, "C1NotStableErr", "C1NotStable"), pre(ccols, "NotStableErr", "NotStableErr")
+	}
 	const width = 16
 	p.DailyCols, p.YearlyCols, p.CropCols = c05Config(dcols, width), c05Config(ycols, width), c05Config(ccols, width)
 	// weather: from 3 days before the start to well after the (possibly extended) end
@@ -318,6 +337,9 @@ func c05Run(raw json.RawMessage, c *mc.Ctx) {
 	var gotDates []string
 	for i, l := range got {
 		f := fieldsOf(l, len(dcols), "daily", i)
+		if sp.Lead > 0 && len(f) > sp.Lead {
+			f = f[sp.Lead:]
+		}
 		gotDates = append(gotDates, f[0])
 		c.Transition(1)
 		c.State(mc.NewHasher().S("d").S(f[0]).I(sp.K).I(sp.Style).Sum())
@@ -351,6 +373,9 @@ func c05Run(raw json.RawMessage, c *mc.Ctx) {
 	var gotY []string
 	for i, l := range records("Y") {
 		f := fieldsOf(l, len(ycols), "yearly", i)
+		if sp.Lead > 0 && len(f) > sp.Lead {
+			f = f[sp.Lead:]
+		}
 		gotY = append(gotY, f[0])
 		c.Transition(1)
 	}
@@ -380,6 +405,9 @@ func c05Run(raw json.RawMessage, c *mc.Ctx) {
 	}
 	for i, l := range records("C") {
 		f := fieldsOf(l, len(ccols), "crop", i)
+		if sp.Lead > 0 && len(f) > sp.Lead {
+			f = f[sp.Lead:]
+		}
 		if len(f) >= 3 {
 			gotC = append(gotC, fmt.Sprintf("%s %s %s", f[0], f[1], f[2]))
 		} else {
